@@ -159,9 +159,9 @@ def plan (src dst : Ty) : Plan :=
     (match u with
      | 0 => .allSlots (liftI (fun x => some (tdivNat x Generated.C13.MILLISECONDS))) (some (liftI (divUnitSpec Generated.C13.MILLISECONDS)))
      | 1 => .ident
-     -- `x * (MICROSECONDS / MILLISECONDS)` / `x * (NANOSECONDS / MILLISECONDS)`: unchecked multiply
+     -- `x.checked_mul(MICROSECONDS / MILLISECONDS)` / `(NANOSECONDS / MILLISECONDS)` (unary_opt / try_unary)
      | _ => let m := unitMult u / Generated.C13.MILLISECONDS
-            .allSlots (liftI (fun x => some (wrapW 64 (x * m)))) (some (liftI (mulUnitSpec i64lo i64hi m))))
+            .rowwise (liftI (mulChecked 64 m)) (some (liftI (mulUnitSpec i64lo i64hi m))))
   | .date32, .date64 => .allSlots (liftI (fun x => some (x * dayMs))) (some (liftI (mulUnitSpec i64lo i64hi dayMs)))
   | .date64, .date32 =>
     .rowwise (liftI (fun x => numCast i32lo i32hi (tdivNat x dayMs)))
